@@ -14,10 +14,16 @@ Recipe: {"kind": position layout, "fam": label, "th": {a,b,c,w,p,l,r,s: lists}, 
 Position layouts: plain arrays (1-D and 2-D) and nifty.re.Vector around a dict / a nested list-tuple-dict.
 """
 import functools
+import logging
 
+import jax
+import jax.numpy as jnp
 import numpy as np
 from hypothesis import strategies as st
 
+import nifty.re as jft
+from nifty.re import optimize as O
+from nifty.re.logger import logger as _nifty_re_logger
 from vlib import Sub, Violation, require
 
 PROPERTY = "C17"
@@ -33,7 +39,7 @@ RULE = ("Generated smooth non-convex objectives (trigonometric, quartic double-w
         "search tries: if the first trial that is not clearly higher is clearly lower, the first iteration must move "
         "along -g and the returned energy must be strictly lower, with a status that is neither 'aborted' nor "
         "'converged' at x0. Eager vs compiled Newton-CG: x, fun, status, success agree to 1e-8*scale.")
-LEVEL_TEXT = ("Randomised search over a five-family objective space, six position layouts and the documented "
+LEVEL_TEXT = ("Randomised search over a six-family objective space, five position layouts and the documented "
               "option space; exploration level because the input space (real coefficients, start points) is "
               "infinite and only sampled.")
 LEVEL_NOTE = ("Trusted: jax.grad/jax.hessian of the flat formula (start classification and trial points), NumPy "
@@ -51,7 +57,8 @@ ASSUMPTIONS = [
     "along the negative gradient'",
     "eager/compiled agreement is 'equal as real-number mathematics': a mismatch is reported only if the eager result "
     "is stable (to 1e-10*scale and in status) under four relative perturbations of x0 of size 2^-40; otherwise the "
-    "algorithm map is discontinuous/ill-conditioned at this input and the case is counted as mismatch_unstable",
+    "algorithm map is discontinuous/ill-conditioned at this input and the case is counted as mismatch_unstable "
+    "(starts with exactly zero gradient or exactly zero curvature along the gradient are judged without this test)",
     "objectives with an exactly linear coordinate (zero Hessian row/column with a non-zero gradient entry) next to "
     "curved coordinates are not generated: the Hessian is singular with the gradient outside its range, CG is "
     "ill-posed, the exact curvature of the second CG direction is 0 and its floating-point value (0 or +-1e-32) decides "
@@ -74,26 +81,12 @@ COEF_M = ("r", "s")
 
 
 # ------------------------------------------------------------------ objective (JAX side, code under test sees this)
-_QUIET = []
-
-
-def _jx():
-    import jax
-    import jax.numpy as jnp
-    import nifty.re as jft
-    from nifty.re import optimize as O
-    if not _QUIET:
-        # the minimisers report "Iteration Limit Reached" etc. through their own stream handler
-        import logging
-        from nifty.re.logger import logger
-        logger.setLevel(logging.CRITICAL + 1)
-        _QUIET.append(True)
-    return jax, jnp, jft, O
+# the minimisers report "Iteration Limit Reached" etc. through their own stream handler (stderr)
+_nifty_re_logger.setLevel(logging.CRITICAL + 1)
 
 
 def flat_formula(th, z):
     """f on the flat position z (jnp); th: dict of jnp arrays"""
-    import jax.numpy as jnp
     val = jnp.sum(th["a"] * z**2 / 2 + th["b"] * z**4 / 4 + th["c"] * jnp.cos(th["w"] * z + th["p"]) + th["l"] * z)
     if z.shape[0] > 1:
         u = z[1:] - th["s"] * z[:-1] ** 2
@@ -102,7 +95,6 @@ def flat_formula(th, z):
 
 
 def flatten_pos(kind, x):
-    import jax.numpy as jnp
     if kind.startswith("arr") or kind == "mat4":
         return jnp.ravel(x)
     t = x.tree
@@ -115,7 +107,6 @@ def flatten_pos(kind, x):
 
 def build_pos(kind, v):
     """position pytree from a flat float64 numpy vector"""
-    _, jnp, jft, _ = _jx()
     v = np.asarray(v, dtype=np.float64)
     if kind.startswith("arr"):
         return jnp.asarray(v)
@@ -177,7 +168,6 @@ def f_np(th, z):
 
 @functools.lru_cache(maxsize=None)
 def _oracle_fns(n):
-    jax, jnp, _, _ = _jx()
     g = jax.jit(jax.grad(flat_formula, argnums=1))
     h = jax.jit(jax.hessian(flat_formula, argnums=1))
     return g, h
@@ -185,7 +175,6 @@ def _oracle_fns(n):
 
 def classify_start(th, x0):
     """gradient, Hessian, curvature along the gradient and its class at x0 (oracle)"""
-    _, jnp, _, _ = _jx()
     gfn, hfn = _oracle_fns(len(x0))
     thj = {k: jnp.asarray(v) for k, v in th.items()}
     g = np.asarray(gfn(thj, jnp.asarray(x0)), dtype=np.float64)
@@ -238,7 +227,6 @@ def trial_analysis(th, x0, info):
 
 # ------------------------------------------------------------------ running the code under test
 def _thj(th):
-    import jax.numpy as jnp
     return {k: jnp.asarray(v) for k, v in th.items()}
 
 
@@ -251,7 +239,6 @@ def _objective(kind, thj):
 @functools.lru_cache(maxsize=None)
 def _eager_helpers(kind):
     """jitted value-and-grad / gradient / Hessian-vector product with the coefficients as arguments"""
-    jax, jnp, _, _ = _jx()
 
     def f(thj, x):
         return flat_formula(thj, flatten_pos(kind, x))
@@ -282,7 +269,6 @@ def newton_options(rec, maxiter=None):
 
 def run_eager(rec, th, x0, maxiter=None):
     """nifty.re.optimize._newton_cg"""
-    jax, jnp, _, O = _jx()
     kind = rec["kind"]
     thj = _thj(th)
     pos = build_pos(kind, x0)
@@ -299,7 +285,6 @@ def run_eager(rec, th, x0, maxiter=None):
 
 @functools.lru_cache(maxsize=None)
 def _static_jit(kind, erf):
-    jax, jnp, _, O = _jx()
 
     def run(thj, pos, maxiter, miniter, xtol, absdelta, cg_miniter, cg_maxiter):
         return O._static_newton_cg(
@@ -326,7 +311,6 @@ def cg_defaults(n, cg):
 def run_static(rec, th, x0, maxiter=None):
     """nifty.re.optimize._static_newton_cg, through an outer jax.jit (options as traced data, as in the pinned
     test_static_ncg_jittability) or, if rec['plain'], called directly with concrete options"""
-    jax, jnp, _, O = _jx()
     kind = rec["kind"]
     thj = _thj(th)
     pos = build_pos(kind, x0)
@@ -354,7 +338,6 @@ def run_static(rec, th, x0, maxiter=None):
 
 @functools.lru_cache(maxsize=None)
 def _trust_jit(kind, absdelta, eta, erf):
-    jax, jnp, _, O = _jx()
 
     def run(thj, pos, maxiter, gtol, itr, mtr, sp_miniter, sp_maxiter):
         return O._trust_ncg(
@@ -366,7 +349,6 @@ def _trust_jit(kind, absdelta, eta, erf):
 
 
 def run_trust(rec, th, x0):
-    jax, jnp, _, O = _jx()
     kind = rec["kind"]
     thj = _thj(th)
     pos = build_pos(kind, x0)
@@ -579,11 +561,12 @@ def _compare(th, x0, re_, rs):
     return bad, tol_x, tol_f
 
 
-def _noise_floor_divergence(rec, th, x0):
+def _first_divergence(rec, th, x0):
     """Locate the first Newton iteration m at which eager and compiled differ (runs with maxiter=m are prefixes of
-    the full run).  True if in that iteration both variants moved by an energy amount that float64 cannot resolve
-    (|dE| <= 1e-11 * sum|terms|) while at least one of them did move: the accept / halve / abort decisions of the line
-    search (`new_energy <= energy`) are then decided by round-off, not by the algorithm."""
+    the full run).  Returns (m, noise_floor); noise_floor is True if in that iteration both variants changed the
+    energy by an amount that float64 cannot resolve (|dE| <= 1e-11 * sum|terms|) while at least one of them did
+    move: the accept / halve / abort decisions of the line search (`new_energy <= energy`) are then decided by
+    round-off, not by the algorithm."""
     kind = rec["kind"]
     prev = x0
     for m in range(1, rec["maxiter"] + 1):
@@ -595,11 +578,11 @@ def _noise_floor_divergence(rec, th, x0):
             fe, _ = f_np(th, e["x"])
             fs, _ = f_np(th, s["x"])
             moved = (not np.array_equal(e["x"], prev)) or (not np.array_equal(s["x"], prev))
-            return moved and max(abs(fp - fe), abs(fp - fs)) <= 1e-11 * sp
+            return m, bool(moved and max(abs(fp - fe), abs(fp - fs)) <= 1e-11 * sp)
         if e["nit"] < m:      # both stopped early, identically
-            return False
+            return None, False
         prev = e["x"]
-    return False
+    return None, False
 
 
 def check_agree(rec):
@@ -615,11 +598,15 @@ def check_agree(rec):
         detail = (f"eager: x={re_['x'].tolist()} fun={re_['fun']!r} status={re_['status']} nit={re_['nit']} "
                   f"nfev={re_['nfev']}; compiled: x={rs['x'].tolist()} fun={rs['fun']!r} status={rs['status']} "
                   f"nit={rs['nit']} nfev={rs['nfev']}; tol_x={tol_x:.1e} tol_f={tol_f:.1e}")
-        if _noise_floor_divergence(rec, th, x0):
+        m, noise = _first_divergence(rec, th, x0)
+        if noise:
             classes.append("mismatch_noise_floor")
             return dict(nontrivial=False, classes=classes)
-        if _perturbed_stable(rec, th, x0, re_, tol_x):
-            raise Violation("eager_vs_compiled:" + "+".join(bad), detail)
+        # a start with exactly zero gradient / exactly zero curvature along the gradient is an exact tie in floating
+        # point as well (CG sees curv == 0.0 or gamma == 0.0): the first iteration is judged without the stability test
+        exact = m == 1 and info["cls"] in ("zero", "stationary")
+        if exact or _perturbed_stable(rec, th, x0, re_, tol_x):
+            raise Violation("eager_vs_compiled:" + "+".join(bad), detail + f"; first differing iteration: {m}")
         classes.append("mismatch_unstable")
         return dict(nontrivial=False, classes=classes)
     if re_["nit"] >= 2:
@@ -640,6 +627,9 @@ def _dy(lo, hi, den):
 
 
 _W = st.sampled_from([0.5, 1.0, 1.5, 2.0, 3.0])
+# about 1 in 130 (interior values of an integer range are drawn roughly uniformly; boundary values are favoured):
+# direct, un-jitted calls of the compiled minimisers re-trace and re-compile every time (0.4 s idle, seconds under load)
+_RARE = st.tuples(st.integers(0, 12), st.integers(0, 12)).map(lambda t: t == (5, 7))
 
 
 @st.composite
@@ -756,7 +746,7 @@ def _theta_x0(draw, n, fam):
 FAMS = ["trig", "dwell", "dwell", "rosen", "concave", "flat", "mixed"]
 
 
-def newton_recipes(plain_every=40, kinds=None, free_erf=False):
+def newton_recipes(plain_every=1, kinds=None, free_erf=False):
     def strat(tier):
         @st.composite
         def rec(draw):
@@ -769,7 +759,7 @@ def newton_recipes(plain_every=40, kinds=None, free_erf=False):
                  "xtol": draw(st.sampled_from([None, None, 1e-5, 1e-2, 1e-8, 0.25])),
                  "absdelta": draw(st.sampled_from([None, None, 2.0**-20, 2.0**-10, 2.0**-4, 1.0])),
                  "mode": draw(st.sampled_from(["fun", "vag_hessp", "vag_hessp", "fun_jac"])),
-                 "plain": bool(plain_every) and draw(st.sampled_from([False] * (plain_every - 1) + [True]))}
+                 "plain": bool(plain_every) and draw(_RARE)}
             # energy_reduction_factor is a Python-level switch: non-default values only where nothing is compiled
             # per value (eager runs, direct calls of the compiled variant)
             if (r["plain"] or free_erf) and draw(st.integers(0, 3)) == 0:
@@ -799,7 +789,7 @@ def _trust_recipes(kinds):
         kind = draw(st.sampled_from(kinds))
         fam = draw(st.sampled_from(FAMS))
         th, x0 = draw(_theta_x0(KINDS[kind], fam))
-        plain = draw(st.sampled_from([False] * 39 + [True]))
+        plain = draw(_RARE)
         tr = {"gtol": draw(st.sampled_from([None, None, 1e-4, 1e-2, 1e-8])),
               "initial_trust_radius": draw(st.sampled_from([None, None, 0.25, 1.0, 4.0])),
               "max_trust_radius": draw(st.sampled_from([None, None, 8.0, 1000.0])),
@@ -818,7 +808,7 @@ ARRAYS = ["arr1", "arr2"]
 VECTORS = ["vdict3", "vnest6"]
 NT_NEWTON = ("non-trivial = clearly negative curvature along a non-zero gradient at the start and the trial-step "
              "oracle decides (a -g trial clearly lowers f, or all six clearly raise it), or >= 2 Newton iterations")
-R_STATIC = ("nifty.re.optimize._static_newton_cg (under jax.jit with options as data; 1/40 called directly) on {}: "
+R_STATIC = ("nifty.re.optimize._static_newton_cg (under jax.jit with options as data; about 1/130 called directly) on {}: "
             "f(x_ret) <= f(x0), fun == f(x_ret); negative-curvature start: first iteration along -g, strict progress, "
             "status not aborted/converged at x0; " + NT_NEWTON)
 R_TRUST = ("nifty.re.optimize._trust_ncg with generated radii / eta / gtol / absdelta / subproblem_kwargs on {}: "
